@@ -158,15 +158,17 @@ PROPS = {
         "props_module": "Redproxy.Props.C10",
         "mode": "c10",
         "rule": "in-process real listeners and connectors with UDP echo origins: reverse-UDP listener -> direct with 1-4 clients interleaved (payloads "
-                "0 B .. 60 kB, the first datagram of every session included); SOCKS5 UDP ASSOCIATE -> direct and -> http connector -> second proxy "
-                "instance (frames inline over the CONNECT stream) -> direct, replies must carry the replying address; two receive-error scenarios "
+                "0 B .. 60 kB, the first datagram of every session included); SOCKS5 UDP ASSOCIATE -> direct / -> http connector (frames inline over the CONNECT stream) / -> quic connector "
+                "(QUIC datagrams, fragmented) / -> quic connector with inlineUdp, each through a second proxy instance -> direct, two origins addressed by "
+                "IP literal and by name, each origin must receive exactly what was addressed to it and replies must carry the replying address; a sweep of "
+                "consecutive payload lengths over the QUIC datagram channel; receive-error scenarios "
                 "(client port closed after its last datagram, destination port closed); each datagram must come back exactly once, in order, to its "
                 "own client with identical payload (length + hash); non-trivial = every case; distinct = case lines",
         "nontrivial": lambda c, i: True,
         "trusted_base": ["session model Redproxy/Model/Udp.lean tied to reverse.rs / udp.rs / direct.rs by correspondence; codec models of C03 / C11 for "
                          "the SOCKS5-UDP header, RPFM frames and QUIC fragments"],
         "assumptions": ["loopback UDP neither loses nor reorders at the harness's rates; ICMP port-unreachable is delivered on loopback",
-                        "QUIC hops (inline and datagram channel) are not exercised end to end (codec + fragmentation theorems only)"],
+                        "QUIC datagrams are not lost on loopback at the harness's rates (batches of 12)"],
     },
     "C07": {
         "props_module": "Redproxy.Props.C07",
@@ -266,8 +268,7 @@ PROPS = {
                          "dev profile (overflow checks on) with panic=unwind override so that panics are observable",
                          "translate/acceptsites.py (textual) extracts the awaits each listener's accept loop performs outside tokio::spawn and classifies them; "
                          "the accept-loop model (Model/Accept.lean) abstracts a listener to 'take a client, perform these waits, spawn'; a blocking send into a "
-                         "bounded per-session queue (reverse UDP) is classified `squeue`, not `peer`: the session owns a connected socket, so only datagrams "
-                         "racing with the session's creation pass through the loop",
+                         "bounded per-session queue counts as a wait on that session's peer (the pinned reverse UDP listener had one: repaired, 0d45019)",
                          "the stall matrix is timing based (3 s bound on loopback)"],
         "assumptions": ["resource exhaustion (unbounded read_line / read_until buffers) is outside the model"],
     },
